@@ -9,7 +9,13 @@ add_traj/sort_trajstate/inf_retis/write_to_pathens) run unmodified. What is enum
     scripted generator: a transition is re-executed with a growing choice script until it needs no further choice.
 States are identified by (weight matrix, busy marks, in-flight ensemble/pin sets) and the exploration runs to closure
 (or to a state budget, in which case the evidence says so). Invariants are those of vlib.simdrv.Observer.
-Path storage and the restart file are stubbed out (no files except the data file); moves are synthesised.
+Path storage is stubbed out; moves are synthesised.
+Restarts: in every explored state the process is "killed" and restarted from what write_toml last put on disk (the real
+write_toml runs; its config is the snapshot): a new REPEX_state is built the way setup_internal does it (load_paths in the
+order of `active`), the W initial picks are enumerated (pick_lock re-issues), and
+  * the restart record must list exactly the jobs that were in flight when it was written (all but the newest pick),
+  * the restarted run must re-issue exactly those jobs first, in order,
+  * the Observer invariants hold, and the state reached joins the exploration (so chains of kills are covered by closure).
 """
 
 import copy
@@ -34,7 +40,13 @@ class Need(Exception):
 class ScriptedGen:
     """Stands in for state.rgen: choices come from the exploration script."""
 
-    def __init__(self, script):
+    def __new__(cls, script=()):
+        # pick_lock builds the stream of a re-issued job as type(self.rgen)(bit_generator): hand out a real generator then
+        if not isinstance(script, (list, tuple)):
+            return np.random.Generator(script)
+        return super().__new__(cls)
+
+    def __init__(self, script=()):
         self.script = list(script)
         self.used = 0
         self.bit_generator = np.random.default_rng(0).bit_generator
@@ -93,6 +105,45 @@ def plus_weights(n, moves, reach, hi):
     return tuple(w + [0.0])
 
 
+RESTARTS = True
+
+
+def _install_snapshot_writer():
+    """The real write_toml, followed by a snapshot of what it put on disk (config + the live path objects)."""
+    from infretis.classes import repex
+    from infretis.classes.repex import REPEX_state
+
+    if getattr(REPEX_state, "_enum_wrapped", False):
+        return
+    real = REPEX_state.write_toml
+
+    def write_toml(self):
+        real(self)
+        self._disk = pickle.dumps((self.config, {t.path_number: t for t in self._trajs[:-1]}), protocol=pickle.HIGHEST_PROTOCOL)
+
+    REPEX_state.write_toml = write_toml
+    REPEX_state._enum_wrapped = True
+    repex.calc_cv_vector = lambda path, *a, **k: path.weights  # FakePaths carry their weight vector
+
+
+def restart_state(st, n, W):
+    """What setup_internal builds from the restart file of `st` (None if nothing was written yet)."""
+    from infretis.classes.repex import REPEX_state
+
+    if st._disk is None:
+        return None
+    cfg, paths_by_num = pickle.loads(st._disk)
+    cfg["current"]["restarted_from"] = cfg["current"]["cstep"]
+    st2 = REPEX_state(cfg, minus=True)
+    st2.traj_data, st2.ensembles = {}, {}
+    st2.engine_occ = {"engine": [-1] * min(n, W)}
+    st2.pstore = StubStore()
+    st2._disk = st._disk
+    st2.initiate_ensembles()
+    st2.load_paths([paths_by_num[int(pn)] for pn in cfg["current"]["active"]])
+    return st2
+
+
 def make_state(n, W, moves, root):
     from infretis.classes import repex
     from infretis.classes.repex import REPEX_state
@@ -110,7 +161,9 @@ def make_state(n, W, moves, root):
     state.traj_data, state.ensembles = {}, {}
     state.engine_occ = {"engine": [-1] * min(n, W)}
     state.pstore = StubStore()
-    state.write_toml = _noop
+    if not RESTARTS:
+        state.write_toml = _noop
+    state._disk = None
     state.initiate_ensembles()
     size = state.n - 1
     for i in range(size - 1):
@@ -175,10 +228,55 @@ def explore(n, W, moves, flags, max_states=60000):
     cwd = os.getcwd()
     os.chdir(root)
     try:
+        if RESTARTS:
+            _install_snapshot_writer()
         state = make_state(n, W, moves, root)
         obs = simdrv.Observer(flags, {})
         blank = {"mc_moves": state.mc_moves, "interfaces": state.interfaces, "cap": state.cap}
-        viol, stats = [], {"prep_scripts": 0, "max_inflight": 0, "swap_jobs": 0, "accepts": 0, "sort_swaps": 0}
+        viol, stats = [], {"prep_scripts": 0, "max_inflight": 0, "swap_jobs": 0, "accepts": 0, "sort_swaps": 0, "restarts": 0, "restarts_with_jobs_in_flight": 0,
+                           "states_first_seen_via_a_restart": 0}
+
+        def jobs_of(mds):
+            return [([int(e) for e in m["ens_nums"]], [str(m["picked"][e]["pn_old"]) for e in m["ens_nums"]]) for m in mds]
+
+        def restart_from(node, trace):
+            """Kill now, restart from the file on disk; yields the nodes after the restarted run's initial picks."""
+            st, infl, ob = node
+            cfg, _ = pickle.loads(st._disk)
+            off = st._offset
+            recorded = [([int(e) - off for e in l[0]], [str(p) for p in l[1]]) for l in cfg["current"].get("locked", [])]
+            expected = jobs_of(infl[:-1]) if len(infl) == W else jobs_of(infl)
+            tr = trace + [("kill+restart", tuple(map(str, recorded)))]
+            if sorted(recorded) != sorted(expected):
+                viol.append(("C06:enum:restart-record-differs-from-jobs-in-flight", f"restart file lists {recorded}; in flight when it was written {expected}", tr))
+                return
+            stats["restarts"] += 1
+            stats["restarts_with_jobs_in_flight"] += bool(recorded)
+            st2 = restart_state(st, n, W)
+            ob2 = simdrv.Observer(flags, {})
+            front = [((st2, [], ob2), tr)]
+            for _ in range(W):
+                nxt = []
+                for nd, t in front:
+                    a, b, c = clone(nd)
+                    if not a.initiate():
+                        nxt.append(((a, b, c), t))
+                        continue
+                    for nd2, script, dead in run_prep((a, b, c), blank, []):
+                        t2 = t + [("restart-pick", script)]
+                        for s_, m_ in nd2[2].viol:
+                            viol.append((s_, m_, t2))
+                        nd2[2].viol = []
+                        if not dead:
+                            nxt.append((nd2, t2))
+                front = nxt
+            for nd, t in front:
+                nd[0].initiate()
+                issued = jobs_of(nd[1])
+                if issued[: len(recorded)] != recorded:
+                    viol.append(("C06:enum:recorded-jobs-not-reissued-first-and-in-order", f"recorded {recorded}, issued {issued}", t))
+                    continue
+                yield nd, t
 
         def run_prep(node, md_in, script_prefix):
             """prep_md_items with all scheduler choices enumerated. Yields (node', script)."""
@@ -240,6 +338,17 @@ def explore(n, W, moves, flags, max_states=60000):
             node, trace = queue.pop()
             st, infl, ob = node
             stats["max_inflight"] = max(stats["max_inflight"], len(infl))
+            if RESTARTS and st._disk is not None:
+                for node_r, tr_r in restart_from(node, trace):
+                    transitions += 1
+                    k = key_of(node_r[0], node_r[1])
+                    if k not in seen:
+                        if len(seen) >= max_states:
+                            closed = False
+                            continue
+                        seen[k] = True
+                        stats["states_first_seen_via_a_restart"] += 1
+                        queue.append((node_r, tr_r[-12:]))
             for j in range(len(infl)):
                 for oc in outcomes(infl[j], n, moves):
                     st2, infl2, ob2 = clone(node)
